@@ -205,11 +205,14 @@ def run(tier, seed, replay_path=None):
                       {"clauses": [f["clause"] for f in fl], "diag": fl[0].get("diag"), "text": c["text"], "obs": c["obs"]})
         o.notes["published_names_covered"] = len({c["word"] for c in built if c["word"] in set(decio.model_names())})
         o.notes["rejections_expected_and_seen"] = sum(1 for i, c in enumerate(built) if c["obs"]["fails"] and i not in rej)
-        probe = copy.deepcopy(next(c for i, c in enumerate(built) if i not in rej and not c["obs"]["fails"]))
-        probe["obs"]["model"] = "OTHER"
-        if not judge([probe], wd, Outcome(PROP, tier, seed), "selftest"):
-            raise Machinery("binding self test: wrong model accepted")
-        o.notes["binding_selftest"] = "rejected"
+        probe = copy.deepcopy(next((c for i, c in enumerate(built) if i not in rej and not c["obs"]["fails"]), None))
+        if probe is None and not rej:
+            raise Machinery("binding self test: nothing to corrupt")
+        if probe is not None:
+            probe["obs"]["model"] = "OTHER"
+            if not judge([probe], wd, Outcome(PROP, tier, seed), "selftest"):
+                raise Machinery("binding self test: wrong model accepted")
+            o.notes["binding_selftest"] = "rejected"
         for c in built[:1] + built[-2:]:
             o.sample({"text": c["text"], "registered": c["listed"][c["npublished"]:], "obs": c["obs"]})
         o.rule = ("one decay line per case with a chosen word in the model position: every published name x PHOTOS x parameter "
